@@ -220,6 +220,16 @@ def coeff_layout_rule(chk, db, rule_id):
                 if d.get("c"):
                     return resolve_ptr(d["c"][0], depth + 1)
                 return None
+            if n.get("k") == "BinaryOperator" and n.get("op") == "+":
+                # pointer arithmetic: base + offset
+                for a, b in ((n["c"][0], n["c"][1]), (n["c"][1], n["c"][0])):
+                    try:
+                        base = resolve_ptr(a, depth + 1)
+                    except NotClosedForm:
+                        base = None
+                    if base and base[0] == "lib":
+                        return ("lib", sympy.expand(base[1] + scalar(b)))
+                return None
             if n.get("k") == "CXXMemberCallExpr":
                 cal = short(callee(n) or "")
                 if cal == "getHierarchicalCoefficients":
